@@ -20,3 +20,4 @@ def run(prog, rep):
     from ..rules import r_order as _ro2
     _ro2.run_attr_search(prog, rep)
     _ro2.run_identity(prog, rep)
+    _ro2.run_exact_compare(prog, rep)
